@@ -214,3 +214,18 @@ void h_rule_add (void) { struct symb *s; world_rhs (); __CPROVER_assume (RHSLEN 
   rule_new_symb_add (s); if (RHSLEN == RCAP) VACUITY_CANARY_N ("longest array"); else VACUITY_CANARY_N ("shorter"); }
 void h_rule_stop (void) { world_rhs (); __CPROVER_assume (gh_k < TOPLEN (ROS)); gh_byte = ROS->os_top_object_start[gh_k];
   rule_new_stop (); if (RHSLEN == 0) VACUITY_CANARY_N ("empty right-hand side"); else VACUITY_CANARY_N ("order array made"); }
+
+/* ---- T.get: symb_get / term_get / nonterm_get: element N of the reference array, or NULL outside [0, count) - never a read outside the array ---- */
+#define VLEN(v) ((size_t) (OFF ((v).vlo_free) - OFF ((v).vlo_start)))
+#define GET_CONTRACT(cname, field) \
+struct symb *cname (int n) \
+__CPROVER_requires (symbs_ptr != NULL && VLEN (symbs_ptr->field) % sizeof (struct symb *) == 0) \
+__CPROVER_assigns () \
+__CPROVER_ensures ((n < 0 || (size_t) n >= VLEN (symbs_ptr->field) / sizeof (struct symb *)) ? __CPROVER_return_value == NULL \
+                   : __CPROVER_return_value == ((struct symb **) symbs_ptr->field.vlo_start)[n]) \
+;
+GET_CONTRACT (symb_get_c, symbs_vlo)
+GET_CONTRACT (term_get_c, terms_vlo)
+GET_CONTRACT (nonterm_get_c, nonterms_vlo)
+void h_get (void)
+{ int n; struct symb *r; _Bool a, b; world (); if (a) r = symb_get (n); else if (b) r = term_get (n); else r = nonterm_get (n); if (r != NULL) VACUITY_CANARY_N ("element"); else VACUITY_CANARY_N ("outside"); }
